@@ -363,26 +363,26 @@ func (parser *Parser) ParseExpression(depth int) (res Sexp, err error) {
 		exp, err := parser.ParseInfix(depth + 1)
 		return exp, err
 	case TokenQuote:
-		expr, err := parser.ParseExpression(depth + 1)
+		expr, err := parser.parseOperand(depth)
 		if err != nil {
 			return SexpNull, err
 		}
 		return MakeList([]Sexp{env.MakeSymbol("quote"), expr}), nil
 	case TokenCaret:
 		// '^' is now our syntax-quote symbol, not TokenBacktick, to allow go-style `string literals`.
-		expr, err := parser.ParseExpression(depth + 1)
+		expr, err := parser.parseOperand(depth)
 		if err != nil {
 			return SexpNull, err
 		}
 		return MakeList([]Sexp{env.MakeSymbol("syntaxQuote"), expr}), nil
 	case TokenTilde:
-		expr, err := parser.ParseExpression(depth + 1)
+		expr, err := parser.parseOperand(depth)
 		if err != nil {
 			return SexpNull, err
 		}
 		return MakeList([]Sexp{env.MakeSymbol("unquote"), expr}), nil
 	case TokenTildeAt:
-		expr, err := parser.ParseExpression(depth + 1)
+		expr, err := parser.parseOperand(depth)
 		if err != nil {
 			return SexpNull, err
 		}
@@ -782,6 +782,40 @@ func (parser *Parser) ParseInfix(depth int) (Sexp, error) {
 
 func (parser *Parser) Linenum() int {
 	return parser.lexer.Linenum()
+}
+
+// parseOperand parses the expression that a prefix operator
+// (% ^ ~ ~@) applies to. Until that expression has arrived the
+// operator is an unfinished prefix: wait for it as ParseList waits
+// for its next element, rather than wrap the end-of-input marker.
+// At depth 0 the text may have ended right after an operand that
+// was not followed by a delimiter; it is still in the lexer.
+func (parser *Parser) parseOperand(depth int) (Sexp, error) {
+	lexer := parser.lexer
+	for {
+		tok, err := lexer.PeekNextToken(0)
+		if err != nil {
+			return SexpEnd, err
+		}
+		if tok.typ != TokenEnd {
+			break
+		}
+		if depth == 0 {
+			flushed, err := lexer.flushAtEnd()
+			if err != nil && err != ErrMoreInputNeeded {
+				return SexpEnd, err
+			}
+			if flushed {
+				continue
+			}
+		}
+		parser.sendMe.Err = ErrMoreInputNeeded
+		ok := parser.yield(parser.sendMe)
+		if !ok {
+			return SexpEnd, ParserHaltRequested
+		}
+	}
+	return parser.ParseExpression(depth + 1)
 }
 
 func (parser *Parser) ParserPeekNextToken(extra int) (tok Token, err error) {
